@@ -29,6 +29,8 @@ def render(c):
         word, env = "${PQ}$PV", {"PV": pay, "PQ": "z"}
     elif d == "dsub2":
         word, vh, env = "$(vout 1)$PQ", {"out.1": pay + "\n"}, {"PQ": "z"}
+    elif d == "glob2":
+        word, files = "*", {"!a": "", pay: "", "~z": ""}     # sorted: !a < payload < ~z for every payload of the model
     else:
         word, files = "*", {pay: ""}
     if c["q"] == "dq":
@@ -68,7 +70,9 @@ def judge(rep, c, line, b, a, files, res):
     if len(probe) != 1 or len(at_exit) != 2:
         return bad("not-foreground", "the program was not waited for / the next command did not run")
     alts = [b + [pay] + a]
-    if c["q"] == "unq" and c["del"] != "glob":
+    if c["del"] == "glob2":
+        alts = [b + ["!a", pay, "~z"] + a]
+    if c["q"] == "unq" and c["del"] not in ("glob", "glob2"):
         alts.append(b + pay.split() + a)
     if pa[0].get("argv") not in alts:
         return bad("argv", "argv %s, expected %s" % (pa[0].get("argv"), alts[0]))
